@@ -59,6 +59,22 @@ CHECKS["C18"] = dict(
     technique="TLA+ model of the worker pool checked by TLC (safety + liveness); TLC schedules replayed on real goroutines via gate hooks; "
               "recorded steps and results validated by TLC against the model and the least-closure oracle")
 
+CHECKS["C10"] = dict(
+    level="model_checking",
+    text="ProjState.tla models the heap behind transformers (SR objects with lazily written defaults, the registry's shared pointers, "
+         "closures with their captured source variable) and TLC checks FunctionOK / CaptureStable / NoSharedDamage for every bounded "
+         "history of Parse / NewTransform / Call (and, as a vacuity self-test, that the pre-repair closure violates them). Every such "
+         "history, TLC simulation walks and seeded random interleavings are executed on the real proj package and ProjStateTrace.tla "
+         "requires each call to return bit-for-bit what a brand-new transformer returns, without panicking. Transform.tla gives "
+         "TransformSpec for Geom.Transform; TLC enumerates every geometry of the BoundsIter universe x failing position x nil "
+         "transformer and the recorded result tree, call sequence, error and input immutability are validated against it.",
+    design_ref="DESIGN.md section 5, C10",
+    note="Trusted: TLC, the harness's bit-pattern interning, 'fresh' answers computed by the harness from brand-new references. Seven "
+         "definitions (two registry names, utm, lcc 3-param, tmerc 7-param, longlat axis=wnu, longlat 3-param), three positions. No "
+         "numeric oracle: only function-ness and structure are decided.",
+    technique="TLA+ heap/closure model checked by TLC; TLC histories replayed on the real package; recorded calls validated by TLC "
+              "against fresh-transformer answers; TLC-enumerated Geom.Transform cases validated against TransformSpec")
+
 NOT_YET = "check not built yet in this round of work; will be claimed when its specification, replay and trace validation exist"
 NA = {
     "C09": "oracle is proj4js 2.3.12 and closed-form geodesy (real-valued transcendental functions, a JavaScript program that "
